@@ -84,6 +84,13 @@ class Path:
         t0 = time.time()
         self.light.set("rlimit", RLIMIT_BRANCH)
         r = _guarded(lambda: self.light.check(t), 5.0)
+        if r != z3.unsat and (is_nonlinear(t) or len(self.light.assertions()) != len(self.solver.assertions())):
+            # the linear over-approximation keeps the branch: let the full solver try to refute it
+            # within a small budget (unknown keeps the branch)
+            self.solver.set("rlimit", RLIMIT_BRANCH)
+            r2 = _guarded(lambda: self.solver.check(t), 5.0)
+            if r2 == z3.unsat:
+                r = r2
         self.solver_time += time.time() - t0
         return r != z3.unsat
 
@@ -232,6 +239,54 @@ def concrete(x):
     if z3.is_true(t):
         return True
     if z3.is_false(t):
+        return False
+    return None
+
+
+def entails(cond):
+    """True when the linear part of the current path condition proves `cond` (cheap; sound: it
+    uses a subset of the hypotheses).  Used by the stubs to avoid building clipping terms."""
+    p = _cur
+    if p is None:
+        return False
+    t = bterm(cond)
+    ts = z3.simplify(t)
+    if z3.is_true(ts):
+        return True
+    if z3.is_false(ts):
+        return False
+    key = ("entails", tid(ts))
+    hit = p.counter.get(key)
+    if hit is not None:
+        return hit
+    p.light.set("rlimit", RLIMIT_BRANCH // 4)
+    r = p.light.check(z3.Not(ts)) == z3.unsat
+    p.counter[key] = r
+    return r
+
+
+def concretize(x):
+    """the unique value the path condition allows for x (int/bool), or None.  Sound: a value is
+    returned only when the solver proves that no other value is possible."""
+    if not isinstance(x, SV):
+        return x
+    c = concrete(x)
+    if c is not None:
+        return c
+    p = cur()
+    # the linear part of the path condition is enough to pin a value down (sound: fewer hypotheses)
+    p.light.set("rlimit", RLIMIT_BRANCH)
+    if p.light.check() != z3.sat:
+        return None
+    m = p.light.model()
+    v = m.eval(x.t, model_completion=True)
+    if p.light.check(x.t != v) != z3.unsat:
+        return None
+    if z3.is_int_value(v):
+        return v.as_long()
+    if z3.is_true(v):
+        return True
+    if z3.is_false(v):
         return False
     return None
 
